@@ -42,6 +42,67 @@ def is_bitwise_guard(test, wvar, bitvar):
     return False
 
 
+def ownbits_rule(ctx, P='C20-OWNBITS'):
+    repo = ctx.repo
+    # ---------------------------------------------------------------- OWNBITS
+    nown = nwb = 0
+    for fn in repo.rule_funcs():
+        if fn.mod.name != 'pony.orm.core': continue
+        stmts = list(walk_no_nested(fn.node))
+        for a in stmts:
+            if not (isinstance(a, ast.AugAssign) and isinstance(a.op, ast.BitOr) and isinstance(a.target, ast.Attribute) and a.target.attr == '_rbits_'): continue
+            owner = norm(a.target.value)
+            # follow local names back to the definitions that reach this statement (a local such as `bit` may be bound more than once)
+            g_ = ctx.cg.cfg(fn)
+            at = [x for x in g_.nodes if x.kind == 'stmt' and x.ast is a]
+            exprs = [a.value]
+            if at:
+                work = [(a.value, at[0], 0)]; seen = set()
+                while work:
+                    e, where, depth = work.pop()
+                    if depth >= 3: continue
+                    for nm in [x.id for x in ast.walk(e) if isinstance(x, ast.Name)]:
+                        for d in reaching_defs(g_, where, nm):
+                            if (d.id, nm) in seen: continue
+                            seen.add((d.id, nm))
+                            v = value_of_def(d, nm)
+                            if v is not None: exprs.append(v); work.append((v, d, depth + 1))
+            recvs = {norm(y.value) for e in exprs for y in ast.walk(e) if isinstance(y, ast.Attribute) and y.attr in ('_bits_except_volatile_', '_bits_', '_all_bits_except_volatile_')}
+            if not recvs: continue      # bits copied from the object's own _wbits_ etc.
+            nown += 1
+            ok = recvs <= {owner, owner + '.__class__'}
+            ctx.ob(P + '.read-bit-from-the-objects-own-table', fn, a, ok,
+                   '' if ok else 'the bits added to %s._rbits_ are computed from the bit table of %s, not of %s: attributes declared in a subclass have no bit there, '
+                   'their reads are not recorded and they are left out of the optimistic check' % (owner, sorted(recvs - {owner}), owner), node=a,
+                   expected='%s._bits_except_volatile_' % owner)
+            # ... and the test that suppresses the mark ("this session wrote the attribute itself": `not W & bit`) looks at the write bits of the
+            # same object -- bit numbers of two entities are unrelated, another object's write bits answer a different question
+            from ..loader import parents as _parents
+            pm_ = _parents(fn.node)
+            y = a
+            while y in pm_ and y is not fn.node:
+                p_ = pm_[y]
+                if isinstance(p_, (ast.If, ast.IfExp)) and y is not p_.test and (y in getattr(p_, 'body', []) or y is getattr(p_, 'body', None)):
+                    for bo in [x for x in ast.walk(p_.test) if isinstance(x, ast.BinOp) and isinstance(x.op, ast.BitAnd)]:
+                        for side in (bo.left, bo.right):
+                            srcs = None
+                            if isinstance(side, ast.Attribute) and side.attr == '_wbits_': srcs = {norm(side.value)}
+                            elif isinstance(side, ast.Name):
+                                tn = [x for x in g_.nodes if x.kind == 'test' and any(z is side for z in x.walk())]
+                                if tn:
+                                    vals = [value_of_def(d, side.id) for d in reaching_defs(g_, tn[0], side.id)]
+                                    if vals and all(v is not None and isinstance(v, ast.Attribute) and v.attr == '_wbits_' for v in vals): srcs = {norm(v.value) for v in vals}
+                            if srcs is None: continue
+                            nwb += 1
+                            okw = srcs == {owner}
+                            ctx.ob(P + '.written-by-this-session-is-asked-of-the-same-object', fn, a, okw,
+                                   '' if okw else 'the read mark on %s is suppressed by the write bits of %s: whether the read is recorded depends on an unrelated pending change '
+                                   'of another object, and an attribute that was read can be left out of the optimistic / repeatable-read check' % (owner, sorted(srcs)), node=p_.test).key += '::' + owner
+                y = p_
+    ctx.floor(P, nown, 4, 'statements adding bits to _rbits_')
+    ctx.floor(P, nwb, 3, 'write-bit guards of read marks')
+
+
 def run(ctx):
     repo, cg = ctx.repo, ctx.cg
     # ---------------------------------------------------------------- READ
@@ -70,38 +131,7 @@ def run(ctx):
                                       'are left out of the optimistic WHERE clause' % (norm(gov.test), bitvar, '' if src_ok else ' (bit not taken from _bits_except_volatile_)')),
                        node=gov, expected='if wbits is not None and not wbits & bit: obj._rbits_ |= bit')
     ctx.floor('C20-READ', n, 2, 'sites recording a read bit')
-    # ---------------------------------------------------------------- OWNBITS
-    nown = 0
-    for fn in repo.rule_funcs():
-        if fn.mod.name != 'pony.orm.core': continue
-        stmts = list(walk_no_nested(fn.node))
-        for a in stmts:
-            if not (isinstance(a, ast.AugAssign) and isinstance(a.op, ast.BitOr) and isinstance(a.target, ast.Attribute) and a.target.attr == '_rbits_'): continue
-            owner = norm(a.target.value)
-            # follow local names back to the definitions that reach this statement (a local such as `bit` may be bound more than once)
-            g_ = ctx.cg.cfg(fn)
-            at = [x for x in g_.nodes if x.kind == 'stmt' and x.ast is a]
-            exprs = [a.value]
-            if at:
-                work = [(a.value, at[0], 0)]; seen = set()
-                while work:
-                    e, where, depth = work.pop()
-                    if depth >= 3: continue
-                    for nm in [x.id for x in ast.walk(e) if isinstance(x, ast.Name)]:
-                        for d in reaching_defs(g_, where, nm):
-                            if (d.id, nm) in seen: continue
-                            seen.add((d.id, nm))
-                            v = value_of_def(d, nm)
-                            if v is not None: exprs.append(v); work.append((v, d, depth + 1))
-            recvs = {norm(y.value) for e in exprs for y in ast.walk(e) if isinstance(y, ast.Attribute) and y.attr in ('_bits_except_volatile_', '_bits_', '_all_bits_except_volatile_')}
-            if not recvs: continue      # bits copied from the object's own _wbits_ etc.
-            nown += 1
-            ok = recvs <= {owner, owner + '.__class__'}
-            ctx.ob('C20-OWNBITS.read-bit-from-the-objects-own-table', fn, a, ok,
-                   '' if ok else 'the bits added to %s._rbits_ are computed from the bit table of %s, not of %s: attributes declared in a subclass have no bit there, '
-                   'their reads are not recorded and they are left out of the optimistic check' % (owner, sorted(recvs - {owner}), owner), node=a,
-                   expected='%s._bits_except_volatile_' % owner)
-    ctx.floor('C20-OWNBITS', nown, 4, 'statements adding bits to _rbits_')
+    ownbits_rule(ctx)
     # ---------------------------------------------------------------- ABORT (shared with C17): a failed check commits nothing, in any database of the session
     from . import C17
     C17.global_commit_rules(ctx, P='C20-ABORT')
@@ -246,6 +276,7 @@ def run(ctx):
 
 
 MUTANTS = [
+    dict(id='C20-wb1', file='pony/orm/core.py', fn='Attribute.__get__', old="            wbits = value._wbits_\n", new="", expect='C20-OWNBITS.written-by-this-session'),
     dict(id='C20-excl1', file='pony/orm/dbapiprovider.py', fn='ArrayConverter.__init__', old="        converter.item_converter = converter.array_types[converter.py_type.item_type][1]", new="        converter.item_converter = item_converter = converter.array_types[converter.py_type.item_type][1]\n        converter.optimistic = item_converter.optimistic", expect='C20-EXCLUDED'),
     dict(id='C20-excl2', file='pony/orm/dbapiprovider.py', fn=None, old="class JsonConverter(Converter):\n", new="class JsonConverter(Converter):\n    optimistic = False\n", expect='C20-EXCLUDED'),
     dict(id='C20-o1', file='pony/orm/core.py', fn='EntityMeta._set_rbits', old="rbits = builtins.sum(obj._bits_except_volatile_.get(attr, 0) for attr in attrs)", new="rbits = builtins.sum(entity._bits_except_volatile_.get(attr, 0) for attr in attrs)", expect='C20-OWNBITS'),
